@@ -394,7 +394,7 @@ func checkLongintSiblings(p *Prog, r *Report) {
 // checkNumbering: both ends number files identically.
 func checkNumbering(p *Prog, r *Report, w *wireExtractor) {
 	rule := "C15/W5-NUMBERING"
-	r.Rule(rule, "sender sorts fileList.Files by Wpath with < after SendFileList and before SendFiles; Wpath is the very string written as the entry name; receiver sorts by Name with < (checked as C09/LOOKUP-MATCHES-SORT shape) before returning the list; indices on the wire are positions in these slices", 4)
+	r.Rule(rule, "sender sorts fileList.Files by Wpath with < after SendFileList and before SendFiles; Wpath is the very string written as the entry name; receiver sorts by Name with < (checked as C09/LOOKUP-MATCHES-SORT shape) before returning the list; indices on the wire are positions in these slices; walkFn appends to the list exactly the entries it sends", 5)
 	do := anchorFunc(p, r, pkgSender, "Transfer", "Do")
 	wpathF := p.Field(pkgSender, "file", "Wpath")
 	filesF := p.Field(pkgSender, "fileList", "Files")
@@ -471,6 +471,35 @@ func checkNumbering(p *Prog, r *Report, w *wireExtractor) {
 		}
 	}
 	r.Cond(okName, rule, "walkFn: Wpath is the string written as the entry name", p.Pos(w.enc.Pos()), "sort key and wire name must be the same value")
+	// list entry and wire entry are created together: on every completed path of
+	// walkFn, an append to fileList.Files is followed by the write of the entry
+	// to the connection, and no entry is written without having been appended
+	{
+		s := &Sim{Fn: w.enc, Atom: func(ssa.Value) (bool, bool) { return false, false },
+			Completed: func(ret *ssa.Return) bool {
+				v := retResults(ret)[0]
+				return isNilConst(v) || isSkipDirLoad(v)
+			},
+			Record: func(in ssa.Instruction) string {
+				if st, ok := in.(*ssa.Store); ok {
+					if _, f := fieldOfAddr(st.Addr); f == filesF {
+						return "APPEND"
+					}
+				}
+				if c, ok := in.(ssa.CallInstruction); ok && strings.HasSuffix(calleeName(c), ".Conn).WriteString") {
+					return "SEND"
+				}
+				return ""
+			}}
+		okPair := true
+		var badSeq string
+		for _, q := range s.Run() {
+			if q != "" && q != "APPEND SEND" {
+				okPair, badSeq = false, q
+			}
+		}
+		r.Cond(okPair && !s.Trunc, rule, "walkFn: every listed entry is sent and every sent entry is listed", p.Pos(w.enc.Pos()), "a completed path of walkFn does ["+badSeq+"]: the sender's list and the wire list differ, so indices after that entry name different files on the two ends")
+	}
 	// indices are positions: SendFiles indexes fileList.Files with the wire index
 	sff := anchorFunc(p, r, pkgSender, "Transfer", "SendFiles")
 	okIdx := false
